@@ -42,7 +42,7 @@ ACTION_AT = dict(Fork='Fork', ClaimAcq='ClaimAcq', ClaimRead='ClaimRead', ClaimW
                  ChildExit='Exit', Wait='Wait', Finish='Outcome', Exc=None, Kill=None, ForkFail='Fork')
 PC_AT = dict(acq={'ClaimAcq'}, read={'ClaimRead'}, write={'ClaimWrite'}, rel={'ClaimRel'}, relx={'ClaimExh'},
              body={'AcqA', 'UpdRead', 'Slot', 'Nop'}, upd={'UpdWrite', 'RdEnd'}, unl={'RelA'}, exiting={'Exit'})
-TIMEOUT = 20.0
+TIMEOUT = 30.0
 
 
 class Injected(RuntimeError):
@@ -261,7 +261,7 @@ def episode_parent(cfg, ann_w, reply_r):
             outcome, exc = 'raised', type(e).__name__ + ': ' + str(e)
     # which children are still running? (the model: none when the call raised)
     alive = []
-    deadline = time.time() + 3
+    deadline = time.time() + 10
     for pid in ctl.children:
         while True:
             try:
